@@ -1044,13 +1044,15 @@ func (r *transformingReader) prepareMessage() error {
 		return err
 	}
 	r.buffer = r.msg.sendBuffer()
-	if r.rw.op.serverEnveloper == nil {
-		r.envRemain = 0
-		return nil
-	}
+	// The re-encoded (and re-compressed) form is subject to the limit too,
+	// whether or not the server's protocol needs an envelope for it.
 	length := r.buffer.Len()
 	if limit := int(r.rw.op.methodConf.maxMsgBufferBytes); length > limit {
 		return bufferLimitError(int64(limit))
+	}
+	if r.rw.op.serverEnveloper == nil {
+		r.envRemain = 0
+		return nil
 	}
 	// Need to prefix the buffer with an envelope
 	env := envelope{
